@@ -19,7 +19,20 @@ RULE = ("life: a machine with the built-in attract mode (start-tagged switch) an
         "later, and trace handlers on a random subset of lifecycle events.  Every execution of Mode.start/stop/"
         "_started/_mode_started_callback/_stopped/_mode_stopped_callback is observed (status, posted lifecycle events, "
         "active_modes, the mode's flags, everything the mode owns in the event/switch/delay registries) and replayed "
-        "on the model.  non-trivial = some mode completes >= 2 cycles or a request was issued from a lifecycle handler")
+        "on the model.  non-trivial = some mode completes >= 2 cycles or a request was issued from a lifecycle handler.  "
+        "Every 8 cases carry a focused scenario: stop from a handler of the mode's own started event / start from a handler "
+        "of its own stopped event, with and without a holder on its stopping queue; start(mode_priority) below, between and "
+        "above the running modes.  "
+        "dev: a machine with a running (fake) game and 1-2 generated game modes (priorities 5..200, restart_on_next_ball, "
+        "start on ball_started) with 1-3 shots each (shared switches, start_enabled yes/no/absent, persist_enable yes/no, "
+        "enable/disable/restart/reset events immediate or delayed), counters and timers with delayed control events; script "
+        "of start/stop requests, control events at any time (before, during - also behind held starting/stopping queues - "
+        "and after the mode's lifetime), the same request twice, request + short wait + stop, switch hits, time steps, "
+        "queue holders and releases, up to two ball ends.  Observed and replayed on coq/C07/Devices.v: every execution of "
+        "the mode's lifecycle methods, every posted control event, every delivered delay, every hit; per step phase, "
+        "control handlers, per shot enabled / registrations found in the EventManager / tracked keys, pending delays of "
+        "Mode.delay and of the machine-wide manager; every ModeController._ball_ending against coq/C07/Controller.v.  "
+        "non-trivial = a mode completed a stop and a control event reached a device")
 TRUSTED_BASE = [
     "Coq 8.16.1 kernel (coqc), vm_compute for the _refuted witnesses and for evaluating the model in the correspondence run; no native_compute",
     "axioms: none (every Print Assumptions is 'Closed under the global context')",
@@ -29,11 +42,19 @@ TRUSTED_BASE = [
     "the history and the theorems quantify over all orders (C01/C02 own the bus)",
     "harness: class-level recording wrappers around six Mode methods, Mode.mode_start and EventManager._post, installed "
     "in the worker process only; attribution of registry entries to modes by the mode's own book-keeping sets",
+    "hand-written model of the mode-device layer coq/C07/Devices.v (EnableDisableMixin, Shot registrations, delayed "
+    "control events on Mode.delay) and of ModeController._ball_ending/_ball_starting coq/C07/Controller.v, tied by the dev "
+    "suite; additional wrappers around DelayManager._process_delay_callback and ModeController._ball_ending/_ball_starting; "
+    "MpfFakeGameTestCase (no ball devices: the harness empties the playfield and sets balls_in_play to end a ball)",
+    "dev oracle: attribution of registry entries to a generated mode by object identity (mode= kwarg, bound callback, "
+    "wrapped callback= kwarg, owner of the DelayManager)",
 ]
 ASSUMPTIONS = [
-    "non-game modes only (game modes additionally depend on C06's game lifecycle)",
+    "life suite: non-game modes only; dev suite: game modes inside ONE single-player game (no player change while a mode runs, no game end inside the recorded history)",
+    "device layer: shots (EnableDisableMixin + own registrations) are modelled; counters/timers in game modes, the complete-dump comparison and the ball-end phase check are oracle-only supplements; ball_holds/multiballs (need ball devices) are not generated",
+    "clock contract of the device layer: only a pending delay is delivered (DFire of anything else has status 2); which of several identical pending delays fires is not distinguished",
     "code running on behalf of a mode registers things only while the mode is not idle, config players only inside start() (guards of the Add operation)",
-    "liveness: only 'a delivered completion is always accepted' is proved; delivery itself is the bus' job (C02) and is checked by the oracle at the end of every run",
+    "liveness: proved up to delivery (nothing but the outstanding completion ends a transition; at its first delivery the mode moves on); delivery itself is the bus' job (C02) and is checked by the oracle at every quiescent point (a mode is inside a transition only while a rig handler holds that queue)",
 ]
 
 PHASES = ["will_start", "starting", "started", "will_stop", "stopping", "stopped"]
@@ -138,6 +159,17 @@ def gen_life(rng, tier, i):
     for _ in range(rng.choice([0, 0, 1, 1, 2])):
         blockers.append({"event": "mode_%s_%s" % (rng.choice(allm), rng.choice(["starting", "stopping"])),
                          "prio": rng.choice([1, 1000])})
+    # focused scenario classes, by case index (every run has them): a stop issued from a handler of the mode's own
+    # started event / a start from a handler of its own stopped event, with and without a handler holding the
+    # mode's stopping queue (without: the stop completes before the callback of mode_<m>_started runs)
+    focus = i % 8
+    if focus in (0, 1, 2, 3):
+        fm = rng.choice(names)
+        reactions.append({"event": "mode_%s_%s" % (fm, "started" if focus < 2 else "stopped"), "prio": rng.choice([1, 150, 1000]),
+                          "action": "stop" if focus < 2 else "start", "target": fm, "budget": rng.choice([1, 2])})
+        blockers = [b for b in blockers if b["event"] != "mode_%s_stopping" % fm]
+        if focus in (1, 3):
+            blockers.append({"event": "mode_%s_stopping" % fm, "prio": rng.choice([1, 1000])})
     traced = [["mode_%s_%s" % (m, p), rng.choice([2, 500])] for m in allm for p in PHASES if rng.random() < 0.6]
     devs = device_events(modes)
     script = []
@@ -151,7 +183,7 @@ def gen_life(rng, tier, i):
         elif r < 0.36:
             script.append(["post", rng.choice(["s_all", "e_all"])])
         elif r < 0.46:
-            script.append(["start", m, rng.choice([None, None, None, 10, 100, 250])])
+            script.append(["start", m, rng.choice([None, None, None, 1, 5, 10, 100, 150, 250])])
         elif r < 0.52:
             script.append(["stop", m])
         elif r < 0.56:
@@ -316,7 +348,27 @@ class Recorder:
                         snap.add((4, self.ids[mn], self.key("d", id(d[0]), d[0])))
                 if t.timer is not None:
                     snap.add((4, self.ids[mn], self.key("t", id(t.timer), t.timer)))
+        # a delay on the MACHINE-WIDE manager whose callback belongs to a recorded mode or one of its devices is
+        # covered by no bulk removal of the mode: class 6 (the model refuses it)
+        for name, d in m.delay.delays.items():
+            obj, _ = _cb_target(d[1])
+            mn = self.obj_owner().get(id(obj)) if obj is not None else None
+            if mn is not None:
+                snap.add((6, self.ids[mn], self.key("d", id(d[0]), d[0])))
         return snap
+
+    def obj_owner(self):
+        if not hasattr(self, "_obj_owner"):
+            m = self.machine
+            oo = {}
+            for mn in self.ids:
+                oo[id(m.modes[mn])] = mn
+                for cn in self.devices.get(mn, {}).get("counters", []):
+                    oo[id(m.counters[cn])] = mn
+                for tn in self.devices.get(mn, {}).get("timers", []):
+                    oo[id(m.timers[tn])] = mn
+            self._obj_owner = oo
+        return self._obj_owner
 
     def phase(self, mode):
         flags = (bool(mode._active), bool(mode._starting), bool(mode.stopping),
@@ -520,6 +572,17 @@ def delay_dump(machine, names, devices):
                 out += ["D %s.delay %s" % (tn, k) for k in t.delay.delays]
             if t.timer is not None:
                 out.append("D %s.timer" % tn)
+    objs = {}
+    for mn in names:
+        objs[id(machine.modes[mn])] = mn
+        for cn in devices.get(mn, {}).get("counters", []):
+            objs[id(machine.counters[cn])] = cn
+        for tn in devices.get(mn, {}).get("timers", []):
+            objs[id(machine.timers[tn])] = tn
+    for k, d in machine.delay.delays.items():
+        obj, meth = _cb_target(d[1])
+        if obj is not None and id(obj) in objs:
+            out.append("D machine.delay %s.%s" % (objs[id(obj)], meth))
     return sorted(out)
 
 
@@ -572,6 +635,7 @@ def run_life(case):
     try:
         machine = rig.machine
         held = []
+        held_ev = {}
         trace = out["handler_trace"]
         requests = []
         adds = []
@@ -629,6 +693,7 @@ def run_life(case):
                 if not queue.waiter:        # a queue somebody else already holds cannot be held twice
                     queue.wait()
                     held.append(queue)
+                    held_ev[id(queue)] = _b["event"]
             machine.events.add_handler(b["event"], bh, priority=b["prio"])
         settle()
         out["base_phases"] = None
@@ -660,7 +725,14 @@ def run_life(case):
         def quiet(tag):
             rec.quiescent(tag)
             leaks = idle_leaks(machine, names, devices)
-            out["quiescent"].append([tag, len(rec.steps), [rec.phase(machine.modes[n]) for n in names], leaks])
+            phases = [rec.phase(machine.modes[n]) for n in names]
+            # liveness at EVERY quiescent point: a mode is inside a transition only while one of the rig's handlers
+            # still holds the queue of exactly that transition
+            holding = set(held_ev[id(q)] for q in held)
+            unheld = [i for i, n in enumerate(names)
+                      if (phases[i] == 1 and "mode_%s_starting" % n not in holding) or
+                      (phases[i] == 3 and "mode_%s_stopping" % n not in holding) or phases[i] in (4, 9)]
+            out["quiescent"].append([tag, len(rec.steps), phases, leaks, unheld])
 
         def do(op):
             k = op[0]
@@ -771,6 +843,7 @@ def run_life(case):
         out["held_left"] = len(held)
     except BaseException as e:       # what the code raises is data (e.g. a late delay callback on dropped state)
         out["error"] = "%s: %s" % (type(e).__name__, str(e)[:160])
+        out["error_tail"] = str(e)[-120:]
         try:
             out["final_registry"] = None
         except Exception:
@@ -820,7 +893,18 @@ def oracle_life(case, out):
     if "boot_error" in out:
         return fails
     if out.get("error"):
-        fails.append({"sig": "exception", "what": "the machine raised during the history: " + out["error"]})
+        # exactly the recorded defect (fixes/C07-lifecycle-events-no-queue-forward.patch): use_wait_queue mode X is started
+        # by the will_start/started event of use_wait_queue mode Y, which forwards the queue Y has already locked
+        sig = "exception"
+        mx = re.search(r"bound method Mode\.start of <Mode\.(\w+)>", out["error"])
+        my = re.search(r"for event mode_(\w+)_(started|will_start)\. Double lock$", out.get("error_tail") or "")
+        if mx and my and mx.group(1) in case["modes"] and my.group(1) in case["modes"]:
+            cx, cy = case["modes"][mx.group(1)]["mode"], case["modes"][my.group(1)]["mode"]
+            if cx.get("use_wait_queue") and cy.get("use_wait_queue") and \
+                    "mode_%s_%s" % (my.group(1), my.group(2)) in cx["start_events"]:
+                sig = "waitq-queue-forwarded-in-lifecycle-event"
+        fails.append({"sig": sig, "what": "the machine raised during the history: " + out["error"] +
+                      " ... " + (out.get("error_tail") or "")[-60:]})
         return fails
     if out.get("nested"):
         fails.append({"sig": "nested-lifecycle-call", "what": "lifecycle methods of recorded modes nested"})
@@ -869,9 +953,15 @@ def oracle_life(case, out):
         fails.append({"sig": "active-list", "what": "active_modes %s but the active modes by (priority, name) are %s (step %s)" %
                       (out["sorted_bad"][0][1], out["sorted_bad"][0][2], out["sorted_bad"][0][0])})
     # 3. nothing left behind
-    for tag, nsteps, phases, leaks in out["quiescent"]:
+    for tag, nsteps, phases, leaks, unheld in out["quiescent"]:
         if leaks:
             fails.append({"sig": "left-behind", "what": "after script step %s an idle mode still owns: %s" % (tag, leaks[:4])})
+            break
+    for tag, nsteps, phases, leaks, unheld in out["quiescent"]:
+        bad = [i for i in unheld if not (phases[i] == 1 and NAMES.index(names[i]) in stuck_known)]
+        if bad:
+            fails.append({"sig": "transition-stuck", "what": "after script step %s mode(s) %s are inside a transition (phases %s) "
+                          "although no handler holds the queue of that transition" % (tag, [names[i] for i in bad], phases)})
             break
     if out.get("at_base") and out.get("dump_diff"):
         fails.append({"sig": "registry-not-restored", "what": "registries differ from the pre-start dump: %s" % out["dump_diff"][:6]})
@@ -930,22 +1020,778 @@ def describe_life(case):
                                                      len(case["reactions"]), len(case["blockers"]))
 
 
+
+# ================================================================================================
+# suite "dev": the mode-device layer (coq/C07/Devices.v) on a machine with a running game
+GMODES = ["ga", "gb"]
+ACTIONS = {"disable": 0, "enable": 1, "restart": 2, "reset": 3}
+ACT_PREFIX = {"disable": "di", "enable": "en", "restart": "rt", "reset": "rs"}
+DEV_SWITCHES = ["s_sh0", "s_sh1", "s_sh2"]
+
+
+def gen_dev_mode(rng, name):
+    cfg = {"priority": rng.choice([5, 10, 20, 100, 100, 200]), "start_events": ["s_" + name],
+           "stop_events": ["e_" + name]}
+    if rng.random() < 0.4:
+        cfg["restart_on_next_ball"] = True
+    if rng.random() < 0.25:
+        cfg["start_events"].append("ball_started")
+    mode = {"mode": cfg, "shots": {}}
+    for k in range(rng.choice([1, 2, 2, 3])):
+        sn = "sh_%s%d" % (name, k)
+        sh = {"switches": ", ".join(rng.sample(DEV_SWITCHES, rng.choice([1, 1, 2])))}
+        r = rng.random()
+        if r < 0.4:
+            sh["start_enabled"] = True
+        elif r < 0.6:
+            sh["start_enabled"] = False
+        if rng.random() < 0.3:
+            sh["persist_enable"] = False
+        for act, p in (("enable", 0.8), ("disable", 0.7), ("restart", 0.3), ("reset", 0.3)):
+            if rng.random() < p:
+                ev = "%s_%s" % (ACT_PREFIX[act], sn)
+                if rng.random() < 0.45:
+                    sh[act + "_events"] = {ev: rng.choice(["1s", "2s", "500ms"])}
+                else:
+                    sh[act + "_events"] = ev
+        mode["shots"][sn] = sh
+    if rng.random() < 0.5:
+        cn = "c_" + name
+        c = {"count_events": "hit_" + cn, "count_complete_value": 3, "reset_on_complete": True}
+        if rng.random() < 0.7:
+            c["logic_block_timeout"] = rng.choice(["2s", "1s"])
+        if rng.random() < 0.7:
+            c["enable_events"] = {"en_" + cn: rng.choice(["1s", "500ms"])}
+        if rng.random() < 0.5:
+            c["disable_events"] = {"di_" + cn: "1s"}
+        mode["counters"] = {cn: c}
+    if rng.random() < 0.4:
+        tn = "t_" + name
+        mode["timers"] = {tn: {"start_value": 0, "end_value": 5, "tick_interval": "1s", "start_running": rng.random() < 0.6,
+                               "control_events": [{"event": "tp_" + tn, "action": "pause", "value": 2},
+                                                  {"event": "ts_" + tn, "action": "start"}]}}
+    if rng.random() < 0.4:
+        mode["event_player"] = {"ep_" + name: "out_" + name}
+    return mode
+
+
+def dev_ctl_events(modes):
+    """[(mode, shot, action name, event)] of every shot control event; other device events"""
+    ctl, other = [], []
+    for mn, mc in modes.items():
+        for sn, sh in mc["shots"].items():
+            for act in ACTIONS:
+                evs = sh.get(act + "_events")
+                if evs:
+                    ctl.append([mn, sn, act, list(evs)[0] if isinstance(evs, dict) else evs])
+        for cn, c in mc.get("counters", {}).items():
+            other += ["hit_" + cn] + [list(c[k])[0] for k in ("enable_events", "disable_events") if k in c]
+        for tn in mc.get("timers", {}):
+            other += ["tp_" + tn, "ts_" + tn]
+    return ctl, other
+
+
+def gen_dev(rng, tier, i):
+    names = GMODES[:rng.choice([1, 2, 2])]
+    modes = {n: gen_dev_mode(rng, n) for n in names}
+    ctl, other = dev_ctl_events(modes)
+    blockers = []
+    for _ in range(rng.choice([0, 0, 1, 1, 2])):
+        blockers.append({"event": "mode_%s_%s" % (rng.choice(names), rng.choice(["stopping", "stopping", "starting"])),
+                         "prio": rng.choice([1, 1000])})
+    script = []
+    balls = 0
+    n = rng.choice([6, 10, 16, 24, 32])
+    while len(script) < n:
+        r = rng.random()
+        m = rng.choice(names)
+        if r < 0.14:
+            script.append(["post", "s_" + m])
+        elif r < 0.24:
+            script.append(["post", "e_" + m])
+        elif r < 0.30:
+            script.append(["start", m, rng.choice([None, None, 5, 20, 150])])
+        elif r < 0.35:
+            script.append(["stop", m])
+        elif r < 0.62 and ctl:
+            c = rng.choice(ctl)
+            script.append(["ctl", c[0], c[1], c[2]])
+            q = rng.random()
+            if q < 0.3:
+                script.append(["ctl", c[0], c[1], c[2]])            # the same request again (redundant)
+            elif q < 0.55:
+                # a request shortly before the stop of its mode (pending delayed control events)
+                script.append(["adv", rng.choice([1, 2, 4])])
+                script.append(rng.choice([["post", "e_" + c[0]], ["stop", c[0]]]))
+        elif r < 0.72:
+            script.append(["hit", rng.choice(DEV_SWITCHES)])
+        elif r < 0.78 and other:
+            script.append(["post", rng.choice(other)])
+        elif r < 0.91:
+            script.append(["adv", rng.choice([1, 2, 4, 4, 8, 8, 12, 17, 24])])
+        elif r < 0.95:
+            script.append(["release"])
+        elif balls < 2:
+            balls += 1
+            script.append(["ball_end"])
+    return {"modes": modes, "blockers": blockers, "script": script}
+
+
+_DEVREC = [None]
+
+
+def _install_dev():
+    from mpf.core.delays import DelayManager
+    _install()
+    if getattr(DelayManager, "_c07_patched", False):
+        return
+    DelayManager._c07_patched = True
+    orig = DelayManager._process_delay_callback
+
+    @functools.wraps(orig)
+    def _process_delay_callback(self, name, callback, **kwargs):
+        rec = _DEVREC[0]
+        tok = rec.fire_enter(self, callback) if rec is not None and rec.machine is self.machine else None
+        try:
+            return orig(self, name, callback, **kwargs)
+        finally:
+            if tok is not None:
+                rec.fire_leave(tok)
+    DelayManager._process_delay_callback = _process_delay_callback
+
+    from mpf.core.mode_controller import ModeController
+    orig_end = ModeController._ball_ending
+    orig_start = ModeController._ball_starting
+
+    @functools.wraps(orig_end)
+    def _ball_ending(self, queue, **kwargs):
+        rec = _DEVREC[0]
+        if rec is None or rec.machine is not self.machine:
+            return orig_end(self, queue, **kwargs)
+        rec.ball_enter(self)
+        try:
+            return orig_end(self, queue, **kwargs)
+        finally:
+            rec.ball_leave(self)
+
+    @functools.wraps(orig_start)
+    def _ball_starting(self, queue, **kwargs):
+        rec = _DEVREC[0]
+        if rec is None or rec.machine is not self.machine:
+            return orig_start(self, queue, **kwargs)
+        rec.in_ball_start = []
+        try:
+            return orig_start(self, queue, **kwargs)
+        finally:
+            rec.ball_starts.append(rec.in_ball_start)
+            rec.in_ball_start = None
+    ModeController._ball_ending = _ball_ending
+    ModeController._ball_starting = _ball_starting
+
+
+def _cb_target(cb):
+    """(object, method name) a delay / handler callback is bound to (through functools.partial)"""
+    for _ in range(4):
+        if hasattr(cb, "__self__") and hasattr(cb, "__name__"):
+            return cb.__self__, cb.__name__
+        if hasattr(cb, "func"):
+            cb = cb.func
+        else:
+            break
+    return None, None
+
+
+class DevRec:
+    """Records, per generated mode, the operations of coq/C07/Devices.v and the state after each of them."""
+
+    def __init__(self, machine, case):
+        self.machine = machine
+        self.case = case
+        self.names = list(case["modes"])
+        self.ids = {n: i for i, n in enumerate(self.names)}          # interface of the Mode wrappers of _install()
+        self.posted = []
+        self.hook_ran = False
+        self.shots = {n: list(case["modes"][n]["shots"]) for n in self.names}
+        self.owner = {sn: n for n in self.names for sn in self.shots[n]}
+        self.nsw = {sn: len(machine.shots[sn].config["switches"]) for sn in self.owner}
+        self.ops = {n: [] for n in self.names}       # [opname, d, a]
+        self.obs = {n: [] for n in self.names}       # [status, hits, phase, hnd, devs, dly]
+        self.depth = 0
+        self.stack = []
+        self.nested = False
+        self.partial_handlers = []
+        self.sorted_bad = []
+        self.mode_steps = 0
+        self.all_ids = {n: i for i, n in enumerate(sorted(machine.modes.keys()))}
+        self.ball_log = []              # [cfg per mode id, active ids, stop requests, remembered for restart]
+        self.ball_starts = []           # start requests of each _ball_starting
+        self.in_ball = None
+        self.in_ball_start = None
+        self.ball_unobservable = False
+        self.ball_leftover = []
+
+    def ball_enter(self, mc):
+        cfg = [[bool(self.machine.modes[n].is_game_mode), bool(self.machine.modes[n].auto_stop_on_ball_end),
+                bool(self.machine.modes[n].restart_on_next_ball)] for n in sorted(self.machine.modes.keys())]
+        for x in mc.active_modes:
+            if x.name not in self.ids and x.is_game_mode:
+                self.ball_unobservable = True       # stop requests are observed for the generated modes only
+        if self.machine.game.player.restart_modes_on_next_ball:
+            # _ball_starting empties the list: entries that survive to the next ball end are left-overs
+            self.ball_leftover.append([self.all_ids[x.name] for x in self.machine.game.player.restart_modes_on_next_ball])
+        self.in_ball = [cfg, [self.all_ids[x.name] for x in mc.active_modes], [], []]
+
+    def ball_leave(self, mc):
+        ent, self.in_ball = self.in_ball, None
+        ent[3] = [self.all_ids[x.name] for x in (self.machine.game.player.restart_modes_on_next_ball or [])]
+        self.ball_log.append(ent)
+
+    # -- observation ---------------------------------------------------------------------------------------------
+    def phase(self, mode):
+        flags = (bool(mode._active), bool(mode._starting), bool(mode.stopping), bool(getattr(mode, "_cleanup_pending", False)))
+        return {(False, False, False, False): 0, (False, True, False, False): 1, (True, False, False, False): 2,
+                (True, False, True, False): 3, (False, False, False, True): 4}.get(flags, 9)
+
+    def ctl_events(self, n):
+        mc = self.case["modes"][n]
+        evs = ["e_" + n]
+        for sn, sh in mc["shots"].items():
+            for act in ACTIONS:
+                e = sh.get(act + "_events")
+                if e:
+                    evs.append(list(e)[0] if isinstance(e, dict) else e)
+        return evs
+
+    def observe(self, n, status, hits=0):
+        m = self.machine
+        mode = m.modes[n]
+        evs = self.ctl_events(n)
+        have = 0
+        for ev in evs:
+            have += sum(1 for h in m.events.registered_handlers.get(ev, []) if h.kwargs.get("mode") is mode)
+        if have not in (0, len(evs)):
+            self.partial_handlers.append([n, have, len(evs)])
+        devs = []
+        for sn in self.shots[n]:
+            shot = m.shots[sn]
+            try:
+                en = 1 if shot.enabled else 0
+            except Exception:       # pylint: disable=broad-except
+                en = 7
+            reg = 0
+            for ev, hl in m.events.registered_handlers.items():
+                for h in hl:
+                    if getattr(h.callback, "__self__", None) is shot and getattr(h.callback, "__name__", "") == "event_hit":
+                        reg += 1
+            k = self.nsw[sn]
+            trk = len(shot._handlers)
+            devs.append([en, reg // k if reg % k == 0 else 1000 + reg, trk // k if trk % k == 0 else 1000 + trk])
+        dly = []
+        for name, d in mode.delay.delays.items():
+            obj, meth = _cb_target(d[1])
+            code = self.dev_code(n, obj, meth)
+            if code is not None:
+                dly.append(code)
+        # delays on any OTHER manager on behalf of this mode's shots: the model has none
+        for name, d in m.delay.delays.items():
+            obj, meth = _cb_target(d[1])
+            code = self.dev_code(n, obj, meth)
+            if code is not None:
+                dly.append(1000 + code)
+        return [status, hits, self.phase(mode), have > 0, devs, sorted(dly)]
+
+    def dev_code(self, n, obj, meth):
+        from mpf.devices.shot import Shot
+        if isinstance(obj, Shot) and obj.name in self.shots[n] and meth and meth.startswith("event_") and \
+                meth[6:] in ACTIONS:
+            return self.shots[n].index(obj.name) * 4 + ACTIONS[meth[6:]]
+        return None
+
+    def emit(self, n, op, status, hits=0):
+        self.ops[n].append(op)
+        self.obs[n].append(self.observe(n, status, hits))
+
+    def check_sorted(self):
+        mc = self.machine.mode_controller
+        want = sorted([x for x in self.machine.modes.values() if x.active], key=lambda x: (x.priority, x.name), reverse=True)
+        if [x.name for x in mc.active_modes] != [x.name for x in want]:
+            self.sorted_bad.append([self.mode_steps, [x.name for x in mc.active_modes], [(x.name, x.priority) for x in want]])
+
+    # -- Mode method wrappers ----------------------------------------------------------------------------------------
+    def enter(self, kind, mode, args, kwargs):
+        self.depth += 1
+        if kind == "Stop" and self.in_ball is not None:
+            self.in_ball[2].append(self.all_ids[mode.name])
+        if kind == "Start" and self.in_ball_start is not None:
+            self.in_ball_start.append(self.all_ids[mode.name])
+        top = self.stack[-1] if self.stack else None
+        if self.depth > 1:
+            if not (kind == "CbStopped" and top is not None and top["kind"] == "Start" and top["mode"] is mode):
+                self.nested = True
+            self.stack.append(None)
+            return None
+        tok = {"kind": kind, "mode": mode, "was_starting": mode._starting,
+               "pending": bool(getattr(mode, "_cleanup_pending", False))}
+        self.stack.append(tok)
+        return tok
+
+    def leave(self, tok, ret):
+        self.depth -= 1
+        self.stack.pop()
+        if tok is None:
+            return
+        kind, mode = tok["kind"], tok["mode"]
+        self.mode_steps += 1
+        self.check_sorted()
+        if kind == "CbStarted":
+            return
+        if kind == "Start":
+            status = 1 if (mode._starting and not tok["was_starting"]) else 0
+        elif kind == "Stop":
+            status = 1 if ret else 0
+        elif kind == "CbStopped":
+            status = 1 if tok["pending"] else 0
+        else:
+            status = 1
+        self.emit(mode.name, ["D" + kind, None, None], status)
+
+    # -- DelayManager wrapper --------------------------------------------------------------------------------------------
+    def fire_enter(self, mgr, callback):
+        obj, meth = _cb_target(callback)
+        sn = getattr(obj, "name", None)
+        if sn in self.owner and obj is self.machine.shots[sn]:
+            code = self.dev_code(self.owner[sn], obj, meth)
+            if code is not None:
+                return [self.owner[sn], code]
+        return None
+
+    def fire_leave(self, tok):
+        n, code = tok
+        self.emit(n, ["DFire", code // 4, code % 4], 1)
+
+
+def dev_attribution(machine, case):
+    """independent attribution: object id -> generated mode, for the modes themselves and all their devices"""
+    objs = {}
+    for n, mc in case["modes"].items():
+        objs[id(machine.modes[n])] = n
+        for sec, coll in (("shots", "shots"), ("counters", "counters"), ("timers", "timers")):
+            for dn in mc.get(sec, {}):
+                objs[id(getattr(machine, coll)[dn])] = n
+    return objs
+
+
+def dev_full_dump(machine, case, objs):
+    """every registry of the machine: [(owner mode or '', text)].  Event handlers (with priority, callback, kwargs keys),
+    switch-controller handlers, pending delays of EVERY DelayManager reachable (machine-wide, every mode, every device
+    that has one), timer tick tasks, shows of shots."""
+    from mpf.core.mode import Mode
+    from mpf.core.delays import DelayManager
+    out = []
+
+    def owner_of(cb, kwargs=None):
+        m = (kwargs or {}).get("mode")
+        if isinstance(m, Mode) and id(m) in objs:
+            return objs[id(m)]
+        obj, _ = _cb_target(cb)
+        if obj is not None and id(obj) in objs:
+            return objs[id(obj)]
+        inner = (kwargs or {}).get("callback")
+        if inner is not None:
+            obj, _ = _cb_target(inner)
+            if obj is not None and id(obj) in objs:
+                return objs[id(obj)]
+        return ""
+
+    def qn(cb):
+        obj, meth = _cb_target(cb)
+        if obj is not None:
+            return "%s.%s" % (getattr(obj, "name", type(obj).__name__), meth)
+        return getattr(cb, "__qualname__", type(cb).__name__)
+
+    for ev, hl in machine.events.registered_handlers.items():
+        for h in hl:
+            out.append([owner_of(h.callback, h.kwargs), "E %s %s %s %s" % (ev, h.priority, qn(h.callback), ",".join(sorted(h.kwargs)))])
+    for sw, lists in machine.switch_controller.registered_switches.items():
+        for st, lst in enumerate(lists):
+            for ent in lst:
+                out.append([owner_of(ent.callback), "S %s %d %s %s" % (sw.name, st, qn(ent.callback), ent.ms)])
+    mgrs = [("machine", "", machine.delay)]
+    for mn, mode in machine.modes.items():
+        mgrs.append(("mode " + mn, objs.get(id(mode), ""), mode.delay))
+    for coll in machine.device_manager.collections.values():
+        for dn, dev in coll.items():
+            dm = getattr(dev, "delay", None)
+            if isinstance(dm, DelayManager):
+                mgrs.append(("%s %s" % (coll.name, dn), objs.get(id(dev), ""), dm))
+    for label, own, dm in mgrs:
+        for name, d in dm.delays.items():
+            out.append([own or owner_of(d[1]), "D %s %s" % (label, qn(d[1]))])
+    for tn, t in machine.timers.items():
+        if t.timer is not None:
+            out.append([objs.get(id(t), ""), "T %s tick" % tn])
+    for sn, sh in machine.shots.items():
+        if sh.running_show is not None:
+            out.append([objs.get(id(sh), ""), "R %s show" % sn])
+    return out
+
+
+def run_dev(case):
+    from rig import FakeGameRig
+    _install_dev()
+    names = list(case["modes"])
+    config = {"modes": names,
+              "switches": dict({"s_start": {"number": "1", "tags": "start"}},
+                               **{sw: {"number": str(i + 2)} for i, sw in enumerate(DEV_SWITCHES)})}
+    rig = FakeGameRig(config, modes=case["modes"])
+    out = {"error": None, "modes": {}, "quiescent": [], "dump_diff": [], "hit_counts": []}
+    try:
+        rig.start()
+    except BaseException as e:
+        return {"boot_error": "%s: %s" % (type(e).__name__, str(e)[:200])}
+    try:
+        machine = rig.machine
+        held = []
+        hits = {}
+
+        def settle():
+            for _ in range(400):
+                rig.advance(0)
+                if not rig.loop._ready:
+                    return
+            raise RuntimeError("no quiescence")
+
+        for n in names:
+            for sn in case["modes"][n]["shots"]:
+                def hh(_sn=sn, **kwargs):
+                    hits[_sn] = hits.get(_sn, 0) + 1
+                machine.events.add_handler(sn + "_hit", hh, priority=1)
+        for b in case["blockers"]:
+            def bh(queue, _b=b, **kwargs):
+                if not queue.waiter:
+                    queue.wait()
+                    held.append([_b["event"], queue])
+            machine.events.add_handler(b["event"], bh, priority=b["prio"])
+        ball_live = [False]
+
+        def on_ball_started(**kwargs):
+            ball_live[0] = True
+
+        def on_ball_will_end(**kwargs):
+            ball_live[0] = False
+        machine.events.add_handler("ball_started", on_ball_started, priority=2)
+        machine.events.add_handler("ball_will_end", on_ball_will_end, priority=2)
+        rig.start_game()
+        settle()
+        if machine.game is None or machine.game.player is None:
+            return {"boot_error": "no game"}
+        machine.game.balls_in_play = 1
+        objs = dev_attribution(machine, case)
+        rec = DevRec(machine, case)
+        # modes that came up with the game (start event ball_started) are stopped first: recording starts idle
+        for _ in range(3):
+            while held:
+                held.pop(0)[1].clear()
+                settle()
+            for n in names:
+                machine.modes[n].stop()
+                settle()
+        rig.advance(3.0)
+        settle()
+        out["start_phases"] = [rec.phase(machine.modes[n]) for n in names]
+        if any(out["start_phases"]):
+            return {"boot_error": "generated modes not idle when recording starts: %s" % out["start_phases"]}
+        _REC[0] = rec
+        _DEVREC[0] = rec
+        seen_sig = {}
+        dump0 = dev_full_dump(machine, case, objs)
+        permanent = {n: sorted(t for o, t in dump0 if o == n) for n in names}
+        out["all_idle_at_start"] = all(p == 0 for p in out["start_phases"])
+
+        def quiet(tag):
+            rec.check_sorted()
+            phases = {n: rec.phase(machine.modes[n]) for n in names}
+            idle = [n for n in names if phases[n] == 0]
+            dump = dev_full_dump(machine, case, objs)
+            # what an idle mode owns beyond its permanent boot-time registrations (start events, playfield-active marks)
+            leaks = []
+            for n in idle:
+                leaks += multiset_diff(sorted(t for o, t in dump if o == n), permanent[n])
+            stuck = [n for n in names if phases[n] in (1, 3) and not any(ev in ("mode_%s_starting" % n, "mode_%s_stopping" % n)
+                                                                          for ev, q in held)] + \
+                    [n for n in names if phases[n] in (4, 9)]
+            out["quiescent"].append([tag, [phases[n] for n in names], leaks[:6], stuck])
+            g = machine.game
+            if g is not None and ball_live[0] and g.balls_in_play == 0:
+                g.balls_in_play = 1             # the fake game has no ball devices: the next ball is "in play" at once
+            sig = json_key([g is not None, g.player.ball if g and g.player else -1, g.balls_in_play if g else -1, ball_live[0],
+                            [rec.phase(machine.modes[x]) for x in ("game", "attract")],
+                            [len(g.player_list) if g else 0]])
+            rest = sorted(t for o, t in dump if o == "")
+            if sig in seen_sig:
+                t0, base = seen_sig[sig]
+                if rest != base and len(out["dump_diff"]) < 3:
+                    out["dump_diff"].append([t0, tag, multiset_diff(rest, base)[:5], multiset_diff(base, rest)[:5]])
+            else:
+                seen_sig[sig] = (tag, rest)
+
+        quiet(0)
+        shot_of_switch = {}
+        for n in names:
+            for sn in case["modes"][n]["shots"]:
+                for sw in machine.shots[sn].config["switches"]:
+                    shot_of_switch.setdefault(sw.name, []).append(sn)
+        balls = 0
+        step = 0
+        for op in case["script"]:
+            step += 1
+            k = op[0]
+            if k == "post":
+                machine.events.post(op[1])
+            elif k == "start":
+                if op[2] is None:
+                    machine.modes[op[1]].start()
+                else:
+                    machine.modes[op[1]].start(mode_priority=op[2])
+            elif k == "stop":
+                machine.modes[op[1]].stop()
+            elif k == "adv":
+                rig.advance(op[1] / 8.0)
+            elif k == "release":
+                if held:
+                    held.pop(0)[1].clear()
+            elif k == "ctl":
+                n, sn, act = op[1], op[2], op[3]
+                sh = case["modes"][n]["shots"][sn]
+                e = sh[act + "_events"]
+                ev = list(e)[0] if isinstance(e, dict) else e
+                listened = 1 if any(h.kwargs.get("mode") is machine.modes[n]
+                                    for h in machine.events.registered_handlers.get(ev, [])) else 0
+                before = len(rec.ops[n])
+                machine.events.post(ev)
+                settle()
+                if len(rec.ops[n]) != before:
+                    rec.nested = True           # nothing else may happen inside a control event
+                rec.emit(n, ["DCtl", rec.shots[n].index(sn), ACTIONS[act]], listened)
+            elif k == "hit":
+                hits.clear()
+                marks = {n: len(rec.ops[n]) for n in names}
+                rig.hit_and_release_switch(op[1])
+                settle()
+                for sn in shot_of_switch.get(op[1], []):
+                    n = rec.owner[sn]
+                    if len(rec.ops[n]) != marks[n]:
+                        rec.nested = True
+                    rec.emit(n, ["DHit", rec.shots[n].index(sn), None], 1, hits.get(sn, 0))
+                    marks[n] = len(rec.ops[n])
+                    out["hit_counts"].append([sn, hits.get(sn, 0)])
+            elif k == "ball_end":
+                if machine.game is not None and ball_live[0] and machine.game.balls_in_play > 0 and \
+                        machine.game.player.ball < 3:
+                    before_ph = {n: rec.phase(machine.modes[n]) for n in names}
+                    ball_no = machine.game.player.ball
+                    machine.playfield.balls = 0             # as MpfFakeGameTestCase.drain_one_ball does
+                    machine.playfield.available_balls = 0
+                    machine.game.balls_in_play = 0          # the last ball drained: the game ends the ball
+                    settle()
+                    rig.advance(1.0)
+                    settle()
+                    balls += 1
+                    if machine.game is not None and machine.game.player.ball == ball_no + 1 and ball_live[0] and not held:
+                        for n in names:
+                            mcfg = case["modes"][n]["mode"]
+                            if before_ph[n] in (0, 2):
+                                up = (before_ph[n] == 2 and mcfg.get("restart_on_next_ball", False)) or \
+                                    "ball_started" in mcfg["start_events"]
+                                out.setdefault("ball_checks", []).append([n, rec.phase(machine.modes[n]), 2 if up else 0,
+                                                                          before_ph[n]])
+            settle()
+            quiet(step)
+        # wind down: release every queue, stop the generated modes, let every delay run out
+        for _ in range(3):
+            while held:
+                held.pop(0)[1].clear()
+                settle()
+            for n in names:
+                machine.modes[n].stop()
+                settle()
+            rig.advance(3.0)
+            settle()
+        quiet("end")
+        out["final_phases"] = [rec.phase(machine.modes[n]) for n in names]
+        out["balls"] = balls
+        out["nested"] = rec.nested
+        out["partial_handlers"] = rec.partial_handlers[:3]
+        out["ball_log"] = [] if rec.ball_unobservable else rec.ball_log
+        out["ball_starts"] = rec.ball_starts
+        out["ball_leftover"] = rec.ball_leftover[:2]
+        out["sorted_bad"] = rec.sorted_bad[:3]
+        for n in names:
+            mc = case["modes"][n]
+            cfg = []
+            for sn in rec.shots[n]:
+                sh = mc["shots"][sn]
+                se = sh.get("start_enabled")
+                cfg.append([sh.get("persist_enable", True), 2 if se is None else (1 if se else 0), bool(sh.get("enable_events")),
+                            sorted(ACTIONS[a] for a in ACTIONS if isinstance(sh.get(a + "_events"), dict))])
+            out["modes"][n] = {"cfg": cfg, "ops": rec.ops[n], "obs": rec.obs[n]}
+    except BaseException as e:
+        out["error"] = "%s: %s" % (type(e).__name__, str(e)[:200])
+    finally:
+        _REC[0] = None
+        _DEVREC[0] = None
+        rig.stop()
+    if out["error"] is None and rig.exception() is not None:
+        out["error"] = "loop exception: %s" % (str(rig.exception())[:200])
+    return out
+
+
+def json_key(x):
+    import json
+    return json.dumps(x, sort_keys=True)
+
+
+def coq_dop(o):
+    k = o[0]
+    if k in ("DCtl", "DFire"):
+        return "%s %s %s" % (k, zlit(o[1]), zlit(o[2]))
+    if k == "DHit":
+        return "DHit %s" % zlit(o[1])
+    return k
+
+
+def coq_dev(case, out):
+    if "boot_error" in out or out.get("error") or out.get("nested"):
+        return None
+    ins, outs = [], []
+    for n in case["modes"]:
+        m = out["modes"][n]
+        cfg = coqlist("(%s, %s, %s, %s)" % ("true" if c[0] else "false", zlit(c[1]), "true" if c[2] else "false", zlist(c[3]))
+                      for c in m["cfg"])
+        ins.append("(%s, %s)" % (cfg, coqlist(coq_dop(o) for o in m["ops"])))
+        outs.append(coqlist("mkDO %s %s %s %s %s %s" % (zlit(o[0]), zlit(o[1]), zlit(o[2]), "true" if o[3] else "false",
+                                                      coqlist(zlist(d) for d in o[4]), zlist(o[5])) for o in m["obs"]))
+    bins = coqlist("(%s, %s)" % (coqlist("(%s, %s, %s)" % tuple("true" if b else "false" for b in c) for c in e[0]), zlist(e[1]))
+                   for e in out.get("ball_log", []))
+    bouts = coqlist("(%s, %s)" % (zlist(e[2]), zlist(e[3])) for e in out.get("ball_log", []))
+    return "(((%s, %s) : devb_in), ((%s, %s) : devb_out))" % (coqlist(ins), bins, coqlist(outs), bouts)
+
+
+def oracle_dev(case, out):
+    fails = []
+    if "boot_error" in out:
+        return fails
+    if out.get("error"):
+        fails.append({"sig": "exception", "what": "the machine raised during the history: " + out["error"]})
+        return fails
+    if out.get("nested"):
+        fails.append({"sig": "nested-lifecycle-call", "what": "lifecycle steps nested / ran inside a device control event"})
+    for tag, phases, leaks, stuck in out["quiescent"]:
+        if leaks:
+            fails.append({"sig": "left-behind", "what": "after script step %s an idle mode (or a device of it) still owns: %s" % (tag, leaks[:4])})
+            break
+    for tag, phases, leaks, stuck in out["quiescent"]:
+        if stuck:
+            fails.append({"sig": "transition-stuck", "what": "after script step %s mode(s) %s are inside a transition (phases %s) "
+                          "although no handler holds their queue" % (tag, stuck, phases)})
+            break
+    if out.get("dump_diff"):
+        t0, t1, plus, minus = out["dump_diff"][0]
+        fails.append({"sig": "registry-not-restored", "what": "registries (without what running generated modes own) at step %s "
+                      "differ from step %s, same game state: +%s -%s" % (t1, t0, plus, minus)})
+    for sn, cnt in out.get("hit_counts", []):
+        if cnt > 1:
+            fails.append({"sig": "double-registration", "what": "one switch activation hit shot %s %d times" % (sn, cnt)})
+            break
+    if out.get("partial_handlers"):
+        fails.append({"sig": "registrations-lost", "what": "only part of a mode's stop/control-event handlers are registered: %s" % out["partial_handlers"][:2]})
+    if out.get("sorted_bad"):
+        fails.append({"sig": "active-list", "what": "active_modes %s but the active modes by (priority, name) are %s (step %s)" %
+                      (out["sorted_bad"][0][1], out["sorted_bad"][0][2], out["sorted_bad"][0][0])})
+    bad = [p for p in out.get("final_phases", []) if p != 0]
+    if bad:
+        fails.append({"sig": "transition-stuck", "what": "generated modes do not stop: final phases %s" % out["final_phases"]})
+    # ModeController at the end / start of a ball (independent of the model): every active game mode is asked to stop,
+    # exactly the active restart_on_next_ball game modes are remembered, and exactly those are started at the next ball
+    for k, (cfg, act, stops, remembered) in enumerate(out.get("ball_log", [])):
+        want_stop = [m for m in act if cfg[m][0] and cfg[m][1]]
+        want_mem = [m for m in act if cfg[m][0] and cfg[m][2]]
+        if stops != want_stop or remembered != want_mem:
+            fails.append({"sig": "ball-end-modes", "what": "ball end %d with active modes %s: stop requests %s (expected %s), "
+                          "remembered for the next ball %s (expected %s)" % (k, act, stops, want_stop, remembered, want_mem)})
+            break
+        if k < len(out.get("ball_starts", [])) and out["ball_starts"][k] != remembered:
+            fails.append({"sig": "ball-end-modes", "what": "ball start %d started %s but %s were remembered" %
+                          (k, out["ball_starts"][k], remembered)})
+            break
+    if out.get("ball_leftover"):
+        fails.append({"sig": "ball-end-modes", "what": "restart_modes_on_next_ball still holds %s when the next ball ends "
+                      "(the list is emptied at every ball start)" % out["ball_leftover"][0]})
+    for b in out.get("ball_checks", []):
+        if b[1] != b[2]:
+            fails.append({"sig": "ball-end-modes", "what": "after the end of a ball mode %s is in phase %s, expected %s "
+                          "(was %s; restart_on_next_ball / start event ball_started)" % (b[0], b[1], b[2], b[3])})
+            break
+    return fails
+
+
+def shrink_dev(case):
+    sc = case["script"]
+    for i in range(len(sc)):
+        yield dict(case, script=sc[:i] + sc[i + 1:])
+    for i in range(len(case["blockers"])):
+        yield dict(case, blockers=case["blockers"][:i] + case["blockers"][i + 1:])
+    for mn, mc in case["modes"].items():
+        for sec in ("counters", "timers", "event_player"):
+            if sec in mc:
+                yield dict(case, modes=dict(case["modes"], **{mn: {k: v for k, v in mc.items() if k != sec}}))
+
+
+def nontrivial_dev(case, out):
+    if "boot_error" in out or out.get("error"):
+        return False
+    n_cb = sum(1 for m in out["modes"].values() for o in m["ops"] if o[0] == "DCbStopped")
+    n_ctl = sum(1 for m in out["modes"].values() for o, b in zip(m["ops"], m["obs"]) if o[0] == "DCtl" and b[0] == 1)
+    return n_cb >= 1 and n_ctl >= 1
+
+
+def describe_dev(case):
+    return "modes=%d script=%s block=%d" % (len(case["modes"]), "<=10" if len(case["script"]) <= 10 else "<=24"
+                                            if len(case["script"]) <= 24 else ">24", len(case["blockers"]))
+
+
+HDR_DEV = ("From C07 Require Import Model Devices Controller.\n"
+           "Definition devb_in : Type := (list (list (bool * Z * bool * list Z) * list dop) * "
+           "list (list (bool * bool * bool) * list Z))%type.\n"
+           "Definition devb_out : Type := (list (list dobs) * list (list Z * list Z))%type.\n"
+           "Definition run : devb_in -> devb_out := devb_run.\nDefinition out_eqb : devb_out -> devb_out -> bool := devb_out_eqb.\n")
+
 HDR_LIFE = "From C07 Require Import Model.\nDefinition run := life_run.\nDefinition out_eqb := life_out_eqb.\n"
 
 SUITES = [
     Suite("life", gen_life, run_life, HDR_LIFE, coq_life, oracle_life, shrink_life, nontrivial_life,
           {"quick": int(os.environ.get("C07_N", "280")), "thorough": 10000}, describe=describe_life, shard=40, case_timeout=120),
+    Suite("dev", gen_dev, run_dev, HDR_DEV, coq_dev, oracle_dev, shrink_dev, nontrivial_dev,
+          {"quick": int(os.environ.get("C07_ND", "120")), "thorough": 6000}, describe=describe_dev, shard=40, case_timeout=120),
 ]
 
-LEVEL_TEXT = ("Machine-checked proof (Coq) over a transition-system model of Mode.start/_started/stop/_stopped/"
-              "_mode_stopped_callback and ModeController.set_mode_state, for every history of requests and completions: "
-              "each mode's lifecycle events follow the cycle will_start..stopped, active_modes is exactly the active modes "
-              "sorted by (priority, name), an idle mode owns nothing in the registries and other owners' entries are never "
-              "touched; the defects of the code as found are _refuted theorems with witnesses.  Every lifecycle step the real "
-              "Mode objects execute in generated histories is replayed on the model on every run.")
-LEVEL_NOTE = ("Trusted: Coq kernel + vm_compute; no axioms. Model hand-written; event bus not modelled (completions are "
-              "history operations; all orders covered); registrations are inputs (Add operations), removals are predicted; "
-              "tie = replay of observed steps + direct oracle (cycle order, sorted active list, idle-owns-nothing, "
-              "registry equals pre-start dump, no stuck transition, no exception).")
-TECHNIQUE = "Coq proof over hand-written transition-system model + differential replay of observed lifecycle steps (vm_compute) + direct oracle"
+LEVEL_TEXT = ("Machine-checked proof (Coq) over three hand-written models, for every history: (1) the lifecycle transition system "
+              "of Mode.start/_started/stop/_stopped/_mode_stopped_callback and ModeController.set_mode_state: each mode's lifecycle "
+              "events follow the cycle will_start..stopped, active_modes is exactly the active modes sorted by (priority, name), an "
+              "idle mode owns nothing in the registries, other owners' entries are never touched, and an open transition is ended "
+              "by nothing but its completion, which is accepted when delivered; (2) the mode-device layer (persisted enable "
+              "flags, shot registrations, immediate and delayed control events posted at any time): an idle mode has no loaded "
+              "device, no registration, no pending delayed control event and no control handler, every registration is "
+              "tracked, a shot is hit once per activation, no action reaches a removed device; (3) the controller at ball end / "
+              "ball start.  The defects of the code as found are _refuted theorems with witnesses.  Every lifecycle step, control "
+              "event, delay delivery and ball end the real objects execute in generated histories is replayed on the models on "
+              "every run.")
+LEVEL_NOTE = ("Trusted: Coq kernel + vm_compute; no axioms. Models hand-written; event bus not modelled (completions are history "
+              "operations; all orders covered; liveness proved up to delivery); in the lifecycle model registrations are inputs "
+              "(Add operations) and removals are predicted, in the device model control events are inputs and registrations, "
+              "delays and removals are predicted; tie = replay of observed steps + direct oracle (cycle order, sorted active list, "
+              "idle-owns-nothing over every registry incl. the machine-wide delay manager, complete registry dump equal at equal "
+              "game states, one hit per activation, no stuck transition at any quiescent point, controller requests at ball end, "
+              "no exception).")
+TECHNIQUE = "Coq proof over hand-written transition-system models + differential replay of observed lifecycle / device / controller steps (vm_compute) + direct oracle"
 DESIGN_REF = "DESIGN.md section 3, C07"
